@@ -217,7 +217,11 @@ func (tx *tableEx) inlinable(fn *ssa.Function) bool {
 }
 
 func inlinableFn(fn *ssa.Function, depth int) bool {
-	if fn == nil || fn.Blocks == nil || (fnPkgPath(fn) != pkgExec && fnPkgPath(fn) != pkgParser) || depth > 3 {
+	if fn == nil || fn.Blocks == nil || (fnPkgPath(fn) != pkgExec && fnPkgPath(fn) != pkgParser && fnPkgPath(fn) != pkgAST) || depth > 3 {
+		return false
+	}
+	// package ast: small tests over flag sets and enum values (`f.has(flag)`)
+	if fnPkgPath(fn) == pkgAST && (len(fn.Blocks) > 8 || fn.Signature.Results().Len() != 1) {
 		return false
 	}
 	if fnPkgPath(fn) == pkgExec && (len(fn.Blocks) > 8 || fn.Signature.Results().Len() != 1) {
@@ -378,6 +382,27 @@ func (tx *tableEx) term(v ssa.Value, row *PathRow, depth int) *Term {
 						return &Term{Kind: "index", Sub: []*Term{tx.term(ia.Index, row, depth+1)}, Tbl: tbl}
 					}
 				}
+				// … or of a package-level array of integer constants that only
+				// its declaration sets (`var priorities = [...]uint8{OpAnd: 1, …}`)
+				if g, ok := ia.X.(*ssa.Global); ok && g.Pkg != nil && strings.HasPrefix(g.Pkg.Pkg.Path(), modPath) {
+					if pt, ok := g.Type().Underlying().(*types.Pointer); ok {
+						if at, ok := pt.Elem().Underlying().(*types.Array); ok {
+							if bt, ok := at.Elem().Underlying().(*types.Basic); ok && bt.Info()&types.IsInteger != 0 {
+								if tbl := runeArrayLiteral(tx.p, g); len(tbl) > 0 {
+									return &Term{Kind: "index", Sub: []*Term{tx.term(ia.Index, row, depth+1)}, Tbl: tbl}
+								}
+							}
+						}
+					}
+				}
+			}
+			// a package-level error of the module, set once by the package
+			// initialiser to a constructed error (`errOutOfBounds =
+			// fmt.Errorf("%w: …", ErrVerbose)`): never nil
+			if g, ok := x.X.(*ssa.Global); ok && isErrorType(x.Type()) && g.Pkg != nil && strings.HasPrefix(g.Pkg.Pkg.Path(), modPath) {
+				if e := tx.p.errors(); e.globalInitClass(g) != "" || g.Object() == types.Object(tx.p.A.ErrVerbose) || g.Object() == types.Object(tx.p.A.ErrExecution) || g.Object() == types.Object(tx.p.A.ErrInvalid) {
+					return &Term{Kind: "fresh", Note: "sentinel " + g.Name()}
+				}
 			}
 			if fa, ok := x.X.(*ssa.FieldAddr); ok {
 				if dom, kind := tx.domainOf(x); dom != nil {
@@ -523,6 +548,10 @@ func (tx *tableEx) callTerm(c *ssa.Call, idx int, v ssa.Value, row *PathRow, dep
 	if q := calleeQualified(&c.Call); q == "errors.New" || q == "fmt.Errorf" || (callee != nil && tx.p.isErrCtor(callee)) {
 		return &Term{Kind: "fresh", Note: c.Name()}
 	}
+	// so is what an allocating constructor of the module returns (`newList()`)
+	if allocCtor(callee) && idx == 0 {
+		return &Term{Kind: "fresh", Note: c.Name()}
+	}
 	if dom, kind := tx.domainOf(v); dom != nil {
 		key := fmt.Sprintf("%s#%d", c.Name(), idx)
 		t := tx.atom(key, v, kind, dom)
@@ -530,6 +559,25 @@ func (tx *tableEx) callTerm(c *ssa.Call, idx int, v ssa.Value, row *PathRow, dep
 		return t
 	}
 	return &Term{Kind: "opaque", Note: "call " + calleeName(&c.Call)}
+}
+
+// allocCtor: a module function with one pointer result every return of which
+// hands back an allocation made in the function.
+func allocCtor(fn *ssa.Function) bool {
+	if fn == nil || !inModule(fn) || fn.Blocks == nil || fn.Signature.Results().Len() != 1 {
+		return false
+	}
+	if _, ok := fn.Signature.Results().At(0).Type().Underlying().(*types.Pointer); !ok {
+		return false
+	}
+	n := 0
+	for _, r := range returnsOf(fn) {
+		if _, ok := stripConvPlain(r.Results[0]).(*ssa.Alloc); !ok {
+			return false
+		}
+		n++
+	}
+	return n > 0
 }
 
 type subTab struct {
